@@ -38,6 +38,10 @@ TEXT = {
         "level": "Generated histories followed / interleaved by dump feeds from generated start CAS values: between the markers exactly one event per document with CAS >= start, in CAS order, each equal (opcode, body, xattrs, datatype, CAS, expiry, RevNo) to the model and to the datatype of the live event of the same version. The start-up gap is explored by scheduled scripts.",
         "design_ref": "DESIGN.md 4 (C09)", "note": SEQ_NOTE, "technique": SEQ_TECH + "; live-vs-backfill differential",
     },
+    "C10": {
+        "level": "Fault enumeration over instrumented crash points: rapid generates histories (documents, xattrs, deletes, purge, design docs, view queries, collection drop/re-create); a dry-run child counts the occurrences of each hook point; for drawn (quick) / many (thorough) <hook, occurrence> pairs a child process replays the history on a fresh on-disk bucket, acknowledges each returned call on stdout and SIGKILLs itself at that point. This process then opens the directory: every key equals the last acknowledged state, the interrupted call is either absent or a complete result (body, xattrs, CAS, expiry, revision checked against the call's post-condition), UUID / collections / design docs are the acknowledged ones, every incrementally maintained index equals a freshly built one (document and high-water mark moved together), and generated follow-up operations behave.",
+        "design_ref": "DESIGN.md 2.6, 4 (C10)", "note": "Process death only (SIGKILL), not power loss: the OS page cache survives, so SQLite's synchronous setting is not exercised. Crash points are the verif hook points (transaction begin / before commit / after commit, between document write and high-water mark, before event posting, between sub-steps of sub-document writes), not arbitrary instructions. Pending expirations after reopen are covered by C14's reopen scenarios, not here.", "technique": "fault injection by enumerated crash points in a child process + model-based comparison after reopen (rapid-generated histories)",
+    },
     "C11": {
         "level": "Generated histories spread over 2-3 collections with identical key names next to a second bucket with the same names: all entry points incl. Touch, expiries, purge, design docs + views, SQL queries, per-collection and multi-collection feeds, DropDataStore and re-creation through any handle. After every step every key of every other collection and of the other bucket reads back identical, other collections' query/view/design-doc probes return identical bytes, their feeds received nothing; drops remove exactly one collection, end exactly its feeds, and re-creation yields an empty collection through every handle.",
         "design_ref": "DESIGN.md 4 (C11)", "note": SEQ_NOTE + " The twin bucket is passive (never addressed by the generated operations).", "technique": SEQ_TECH + "; frame condition + differential probes over time",
@@ -45,6 +49,10 @@ TEXT = {
     "C12": {
         "level": "Generated design documents from a grammar of map functions with a Go twin, generated documents, all write entry points, design-doc replacement, and view queries with generated parameters placed anywhere in the history; every stale=false result is compared with (a) the twin evaluated over the model's documents with an own implementation of key collation restricted to the generated key domain and (b) a freshly built identical view (incremental == from scratch).",
         "design_ref": "DESIGN.md 4 (C12)", "note": SEQ_NOTE + " Keys are null/booleans/small numbers/[0-9a-z] strings/arrays thereof; include_docs, limit+reduce and updateAfter are not generated. *WithMeta writes are excluded by known finding K01.", "technique": SEQ_TECH + "; differential against an independent evaluator and against a fresh index",
+    },
+    "C13": {
+        "level": "rapid state machine over bucket names x URLs (in-memory, two directories) with OpenBucket in each mode, Close, repeated Close and CloseAndDelete on any handle ever returned; after every step a write+read probe on every handle, cross-handle visibility, GetBucketNames and the database files are compared with a registry model. Plus concurrent open/probe/close loops of 2-6 goroutines with seeded scheduling noise on an already-created bucket.",
+        "design_ref": "DESIGN.md 4 (C13)", "note": "What calls on handles of a deleted bucket return is a don't-care (any error). Two bucket names sharing one directory are not generated. The concurrent part samples schedules; it is not exhaustive.", "technique": "stateful property-based testing against a registry model; randomized concurrent stress with invariants",
     },
     "C17": {
         "level": "Generated histories over all mutating entry points: after each successful mutation the revision number (read through $document.revid, $document, live RevNo and backfill RevNo) is previous+1, 1 on creation or re-creation after purge, unchanged on failure.",
